@@ -17,6 +17,8 @@ Decides:
                           and ParseCommand::eval: every Ok return leaves the caller's state with the scope it had
                           before the adjacent narrowing (the subcommand's own narrowing is kept: it is closed by
                           the leftover check inside run_subparser).
+ T tokenizer append-only  the vector of items built from argv is only appended to; the single rollback (a cluster that is
+                          neither flags nor an argument) truncates to a length saved before anything was pushed.
  X alternatives           ParseOrElse adopts exactly one fork (see C07).
 Does not decide: that no combination of shapes double-delivers an item through scope arithmetic."""
 import re
@@ -29,7 +31,7 @@ import consumers, scopes, c06
 LEVEL = 'other'
 EXPLANATION = __doc__
 ASSUMPTIONS = ['user closures are pure; third-party Parser impls can only call the public API']
-FLOORS = {'L.ledger': 16, 'P.primitives': 13, 'C.read-remove': 22, 'O.leftover': 2, 'E.discipline': 9, 'S.snapshot': 10, 'R.scope-restore': 4}
+FLOORS = {'L.ledger': 16, 'P.primitives': 13, 'C.read-remove': 22, 'O.leftover': 2, 'E.discipline': 9, 'S.snapshot': 10, 'R.scope-restore': 4, 'T.tokenizer': 2}
 
 def run(ctx):
     cfgs = ['none', 'all'] if ctx.tier == 'quick' else ['none', 'all', 'ac', 'doc', 'dull', 'bat']
@@ -44,6 +46,28 @@ def run(ctx):
         discipline(ctx, cfg, fs)
         snapshot(ctx, cfg, fs)
         scope_restore(ctx, cfg, fs)
+        tokenizer_append_only(ctx, cfg, fs)
+
+def tokenizer_append_only(ctx, cfg, fs):
+    """every call that can shrink a Vec<Arg> (the item list under construction): allowed is truncate(len saved at entry)"""
+    n = 0
+    for b in fs.bodies.values():
+        for c in b.calls():
+            if not c.is_(r'^std::vec::Vec::<arg::Arg>::(truncate|pop|remove|swap_remove|drain|clear|retain|split_off|dedup\w*)$', r'^std::vec::Vec::<arg::Arg, A>::(truncate|pop|remove|swap_remove|drain|clear|retain|split_off)$'):
+                continue
+            n += 1
+            ok = False; why = 'removes items that were already tokenized'
+            if c.is_(r'::truncate$'):
+                rs = provenance(b, c.args[1], c.bb, 'term', through=None)
+                saved = bool(rs) and all(r.kind == 'call' and r.call.is_(r'Vec::<arg::Arg.*>::len$') and not r.path for r in rs)
+                # the saved length was taken before any push in this function
+                early = saved and all(not any(x.is_(r'Vec::<arg::Arg.*>::push$') and b.reaches(x.bb, [r.call.bb]) and x.bb != r.call.bb for x in b.calls()) for r in rs)
+                ok = saved and early
+                why = 'rolls back to the length saved before anything was pushed' if ok else 'truncates to %s' % sorted('%s:%s' % (r.kind, r.what if r.kind != 'call' else short(r.call.name)) for r in rs)
+            ctx.ob('T.tokenizer', '%s:%s' % (short(outer(b.path)), c.name.split('::')[-1]), ok, '%s: %s on the item list under construction %s' % (short(b.path), c.name.split('::')[-1], why), where=c.where(), cfg=cfg)
+    cons = ctx.look(fs.one(r'^args::inner::State::construct$'))
+    pushes = [c for x in [cons] + [fs.bodies[n_] for c_ in cons.calls() for n_ in c_.names if n_ in fs.bodies] for c in x.calls() if c.is_(r'Vec::<arg::Arg.*>::push$')]
+    ctx.ob('T.tokenizer', 'construct:pushes', len(pushes) >= 5 and n >= 1, 'State::construct and its helpers build the item list with %d push sites and %d shrinking site(s)' % (len(pushes), n), where=cons.where(), cfg=cfg)
 
 def discipline(ctx, cfg, fs):
     for (b, c, cls, d) in conversion_sites(fs):
